@@ -79,6 +79,13 @@ Definition pextra : P (Z * (Z * Z)) :=
   let* ty := pint in let* sz := pint in let* rva := pint in pret (ty, (sz, rva)).
 Definition pmisc : P (Z * list Z) := let* k := pint in let* l := plist pint in pret (k, l).
 
+Definition phandle : P mhandle :=
+  let* hd := pint in let* ty := poptstr in let* ob := poptstr in
+  let* at_ := pint in let* ac := pint in let* hc := pint in let* pc := pint in
+  pret {| h_handle := hd; h_type := ty; h_object := ob; h_attr := at_; h_access := ac; h_hcount := hc; h_pcount := pc |}.
+Definition phandles : P (bool * list mhandle) :=
+  let* v := pint in let* l := plist phandle in pret (negb (v =? 0), l).
+
 Definition pmodel : P (endian * model) :=
   let* en := pint in
   let* ver := pint in let* ck := pint in let* tm := pint in let* fl := pint in let* pad := pint in
@@ -98,13 +105,15 @@ Definition pmodel : P (endian * model) :=
   let* ti := popt (plist (pints 10)) in
   let* r1 := popt pblob in let* r2 := popt pblob in let* r3 := popt pblob in
   let* r4 := popt pblob in let* r5 := popt pblob in let* r6 := popt pblob in
+  let* hs := popt phandles in
   pret (if en =? 0 then LE else BE,
         {| m_version := ver; m_checksum := ck; m_time := tm; m_flags := fl; m_extra_dir := extra;
            m_pad_lists := negb (pad =? 0);
            m_sysinfo := si; m_threads := th; m_modules := md; m_memory := me; m_memory64 := m64;
            m_exception := ex; m_tnames := tn; m_unloaded := un; m_meminfo := mi; m_misc := mc;
            m_breakpad := bp; m_assertion := asr; m_thread_info := ti;
-           m_lx_cpuinfo := r1; m_lx_status := r2; m_lx_lsb := r3; m_lx_environ := r4; m_lx_maps := r5; m_lx_limits := r6 |}).
+           m_lx_cpuinfo := r1; m_lx_status := r2; m_lx_lsb := r3; m_lx_environ := r4; m_lx_maps := r5; m_lx_limits := r6;
+           m_handles := hs |}).
 
 Definition run_encode (toks : list Z) : option (list Z) :=
   match pmodel toks with
@@ -294,5 +303,7 @@ Definition run_observe (bytes : list Z) : option (list (Z * list (list Z))) :=
              sec (v_lx_lsb v) (fun b => str b :: kv_items 61 b);
              sec (v_lx_environ v) (fun b => str b :: kv_items 61 b);
              sec (v_lx_maps v) (fun b => [str b]);
-             sec (v_lx_limits v) (fun b => [str b]) ]
+             sec (v_lx_limits v) (fun b => [str b]);
+             sec (v_handles v) (fun x => map (fun h => [if fst x then 2 else 1; h_handle h; h_attr h; h_access h; h_hcount h; h_pcount h]
+                                                       ++ ostr (h_type h) ++ ostr (h_object h)) (snd x)) ]
   end.
